@@ -226,6 +226,9 @@ def check_recurring(interval_ms, offset_ms, t0_ms, nslots, loop):
     O = Fraction(offset_ms).limit_denominator(10 ** 6)
     t0 = Fraction(t0_ms) / 1000
     window_end = t0 + nslots * I / 1000 + I / 4000
+    # the end of the observation window must not coincide with a slot (a tie there says nothing about the scheduler)
+    while ((window_end * 1000 - O) / I).denominator == 1 or abs(float((window_end * 1000 - O) / I) - round(float((window_end * 1000 - O) / I))) < 1e-3:
+        window_end += I / 8000
     # exact slots strictly after t0
     k = (t0 * 1000 - O) / I
     k0 = int(k) if k == int(k) else (int(k) if k >= 0 else int(k) - 1)
